@@ -71,6 +71,11 @@ HAND = [
     ('qn_for', "def f(a, b, c):\n    for i in a:\n        b[-2] = b[-2] + i\n        b[1.5] = i\n        c.p.q.r = b[-2]\n        b['it\\'s'] = i\n        b[True] = i\n        b[None] = i\n    return b[-2], b[1.5], c.p.q.r, b['it\\'s'], b[True], b[None]\n"),
     ('qn_while', "def f(a, b, c):\n    while a:\n        b[-1] += a\n        b[(1, 2)] = a\n        b[1, -2] = a\n        b[b'x'] = a\n        b[-1j] = a\n        b[2j] = a\n        c[0].v = a\n        c[-3].w = b[-1]\n        c.u[-1] = a\n        a -= 1\n    return b[-1], b[(1, 2)], b[1, -2], b[b'x'], b[-1j], b[2j], c[0].v, c[-3].w, c.u[-1]\n"),
     ('qn_nested', "def f(a, b, c):\n    for i in a:\n        if i:\n            b[-1][0] = i\n            b[0][-1] = i\n            c.d[-1].e = i\n        while c:\n            b[-0] = i\n            b[+1] = i\n            b[~1] = i\n            b[- 7] = b[-7] + 1\n            c = c - 1\n    return b[-1][0], b[0][-1], c.d[-1].e, b[-0], b[-7]\n"),
+    # the same user expression substituted into several template slots / several replace calls:
+    # every occurrence must get its own nodes (literals included)
+    ('share_chain', "def f(a, b, c):\n    x = a < 5 < b\n    y = 0 <= a + 1 < b * 2 <= c[0] < 100 != a\n    if a < 'm' < b or not 1 < c.v <= 2.5:\n        x = a is None is not b\n    while 0 < a < (10, 2)[0]:\n        a -= 1\n    assert a < -1 < b, 'msg'\n    z = [i for i in c if 0 < i < 9]\n    g = lambda q: 1 < q < 3\n    return x, y, z, g, a < f(1, k=2) < b, a in (1, 2) in c\n"),
+    ('share_aug', "def f(a, b, c):\n    b[0] += 1\n    b[-1] -= a\n    c[0].v += 2\n    c[0].v[1] *= 3\n    b['k'][2] = b['k'][2] + 1\n    c[1].l.append(a)\n    c[2].m[3].append(4)\n    x = c[4].l.pop()\n    for i in a:\n        b[0] += i\n        c[0].v[1] **= 2\n    return b, c, x\n"),
+    ('share_call', "def f(a, b, c):\n    x = g(1, a, *b[0], k=2, **c[1])\n    y = a.h(1)(2)[3](k=(4, 5))\n    if g(0) < g(1) < g(2):\n        x = y if g(3) else g(4)\n    for i in g(5, 6):\n        if i < 7 < x:\n            continue\n        if 8 > i > 9:\n            break\n        y = i\n    return x and 1 < y < 2 or g(10)\n"),
     ('printcall', 'def f(a, b, c):\n    print(a, len(b), range(c), sep="")\n    return int(a) + float(b) + abs(c)\n'),
 ]
 
@@ -115,6 +120,23 @@ def gen_programs(rnd, tier):
             except Exception:   # generator option not supported in this combination
                 continue
             out.append(('gen:%s:%d' % (sname, i), src))
+    # random chained comparisons / repeated-slot shapes with literals inside the operands
+    atoms = ['a', 'b', '5', '-1', "'s'", 'c[0]', 'c.v', 'g(1)', 'a + 1', '(2, 3)[0]', 'b[a][7]', 'None', '1.5', 'c[0].w[2]']
+    cmps = ['<', '<=', '>', '>=', '==', '!=', 'in', 'not in']
+    for i in range(6 if tier == 'quick' else 40):
+        def chain():
+            n = rnd.randint(2, 5)
+            parts = [rnd.choice(atoms)]
+            for _ in range(n):
+                parts += [rnd.choice(cmps), rnd.choice(atoms)]
+            return ' '.join(parts)
+        lines = ['def f(a, b, c):', '    x = %s' % chain()]
+        lines += ['    %s %s:' % (rnd.choice(['if', 'while']), chain()), '        a = a - 1', '        y = %s' % chain(),
+                  '        if %s:' % chain(), '            break' if lines[-1].startswith('    while') else '            x = 0']
+        tgt = rnd.choice(['b[0]', 'c[0].v', 'c[1].v[2]', "b['k'][3]", 'c[2].l'])
+        lines += ['    %s %s= %s' % (tgt, rnd.choice(['+', '-', '*', '']), rnd.choice(atoms)),
+                  '    return x, g(%s), %s' % (chain(), chain())]
+        out.append(('gen:share:%d' % i, '\n'.join(lines) + '\n'))
     # random composite state variables: literal keys qual_names can turn into QN literals
     keys = ['-1', '0', '-2', "'k'", '-1.5', '2.5', '(1, 2)', '(0, -1)', 'True', 'None', "b'y'", '-3j', '1j', '-0', '+2', "''", '10**2', '-(1)', '- 4']
     for i in range(6 if tier == 'quick' else 40):
@@ -960,6 +982,8 @@ def check(run):
 
 
 def _check(run, tmpdir):
+    import warnings
+    warnings.filterwarnings('ignore', category=SyntaxWarning)
     rnd = random.Random(run.seed * 7919 + 17)
     quick = run.tier == 'quick'
     # 1. regenerate
